@@ -159,7 +159,7 @@ def task_steps(tier, seed, arg):
     canon_state = _loader_state(canon["state"])
     if not canon["values_digest_ok"]:
         violations.append({"key": "steps:canonical:all-events-after-load",
-                           "what": "evaluating the whole alphabet after the canonical load "
+                           "what": "evaluating the whole alphabet after the canonical load (or reading every value a second time) "
                                    "changes the digest", "input": [], "observed": "digest changed",
                            "expected": "unchanged"})
     for (g, s, e), res in zip(triples, results):
